@@ -431,7 +431,8 @@ func (m *Mutate) valuesToCellblocks() ([]byte, int32, uint32) {
 	var cbsLen int
 	var count int
 	for family, v := range m.values {
-		if v == nil {
+		if v == nil && m.mutationType == pb.MutationProto_DELETE {
+			// only deletes get an empty qualifier, same as in the loop below
 			v = emptyQualifier
 		}
 		count += len(v)
